@@ -174,6 +174,14 @@ def build():
     wide = "<table><tr>" + "".join("<td>c%d</td>" % i for i in range(17)) + "</tr></table>"
     a(("caption-holds-wide-table", ("intro " * 60) + "\n\n<table><caption>cap " + wide + "</caption><tr><td>x</td></tr></table>\n"))
     a(("mp-upper-caption-list", ("intro " * 60) + '\n\n<table id="mp-upper"><caption><ul><li>a</li><li>b</li></ul></caption><tr><td>x</td><td>y</td></tr></table>\n'))
+    a(("caption-holds-bordered-table", ("word " * 60) + '\n\n<table><caption><table class="wikitable"><tr><td>x</td><td>y</td></tr></table></caption><tr><td>a</td><td>b</td></tr></table>\n'))
+    a(("caption-then-empty-rows", "{|\n|+ caption words\n|-\n| \n|-\n|\n|}\n"))
+    a(("caption-gallery-only-cell", "{|\n|+ tabcapword\n|-\n|\n<gallery>\nFile:Pic.png|capone\n</gallery>\n|}\n"))
+    # colspan / rowspan values that look like numbers to str.isdigit() but not to int()
+    a(("span-unicode-digits", '{|\n| colspan="²" | a\n| rowspan=① | b\n|-\n| colspan=₂ | c\n|}\n<div class="noprint">np</div>\n'))
+    a(("span-5000-digits", '{|\n| colspan="' + "9" * 5000 + '" | a\n| b\n|}\n'))
+    # a list-only table row with more than five items in which a nested list equals one of the cell's own lists
+    a(("list-row-nested-equals-toplevel", "{|\n|\n* a\n** none\n* b\n* c\n* d\n* e\n* f\n\n* none\n|\n* x\n* y\n|}\n"))
     return T
 
 
